@@ -282,3 +282,36 @@ func Verif_C12_first_match() {
 	}
 	verifapi.Assert("no-lock-left-held", verifapi.HeldLocks() == 0)
 }
+
+// Verif_C12_rule_reuse: one parsed rule set (a regex rule followed by a literal rule) decides three
+// packets one after the other: every verdict is that of the first matching rule for THAT packet - a
+// rule function keeps nothing from the packets it has seen.
+func Verif_C12_rule_reuse() {
+	pats := []string{"a|b", "a*", "[ab]b", "(?i)ab", "a.", "^a$"}
+	p := pats[verifapi.Choose(len(pats))]
+	lit := verifapi.String(2)
+	verifapi.Assume(lit[0] != '/')
+	rules, err := ParseFirewallRules([]FirewallRuleData{{"fromnode": "/" + p + "/", "action": "drop"}, {"FromNode": lit, "Action": "Reject"}})
+	verifapi.Assert("rules-accepted", err == nil && len(rules) == 2)
+	eval := func(from string) FirewallResult {
+		md := &MessageData{FromNode: from, ToNode: "t", FromService: "f", ToService: "s"}
+		for _, r := range rules {
+			if res := r(md); res != FirewallResultContinue {
+				return res
+			}
+		}
+		return FirewallResultAccept
+	}
+	for i := 0; i < 3; i++ {
+		subj := verifapi.StringUpTo(2)
+		got := eval(subj)
+		want := FirewallResultAccept
+		if verifapi.FullMatch(p, subj) {
+			want = FirewallResultDrop
+		} else if subj == lit {
+			want = FirewallResultReject
+		}
+		verifapi.Assert("each-packet-judged-on-its-own", got == want)
+	}
+	verifapi.Cover("three-packets")
+}
